@@ -53,6 +53,14 @@ package config
 //@   loop 4 invariant forall i int, j int :: 0 <= i && i < j && j <= rangeindex ==> r.GroupBy[i] != r.GroupBy[j]
 //@   loop 4 invariant forall ln model.LabelName :: (ln in groupBy) == (exists k int :: 0 <= k && k <= rangeindex && r.GroupBy[k] == ln)
 //@   loop 4 invariant (r.GroupByAll == (exists i int :: 0 <= i && i < len(r.GroupByStr) && r.GroupByStr[i] == "...")) && (forall i int :: 0 <= i && i < len(r.GroupByStr) && r.GroupByStr[i] != "..." ==> r.GroupByStr[i] in elems(r.GroupBy))
+// a `routes:` list entry that is null decodes to a nil *Route: it is refused here, which is what entitles the tree
+// walks (checkReceiver, checkTimeInterval, dispatch.newRoute) to assume that no route has a nil child (the decoder
+// runs this function on every route node of the tree and fails the load when it fails - yaml.v2, trusted)
+//@   ensures [no-empty-subroute] result == nil ==> (forall i int :: 0 <= i && i < len(r.Routes) ==> r.Routes[i] != nil)
+//@   loop 5 invariant rangeindex < len(r.Routes) && (forall k int :: 0 <= k && k <= rangeindex ==> r.Routes[k] != nil)
+//@   loop 5 invariant forall i int, j int :: 0 <= i && i < j && j < len(r.GroupBy) ==> r.GroupBy[i] != r.GroupBy[j]
+//@   loop 5 invariant (r.GroupByAll == (exists i int :: 0 <= i && i < len(r.GroupByStr) && r.GroupByStr[i] == "...")) && (forall i int :: 0 <= i && i < len(r.GroupByStr) && r.GroupByStr[i] != "..." ==> r.GroupByStr[i] in elems(r.GroupBy))
+//@   loop 5 invariant !(len(r.GroupBy) > 0 && r.GroupByAll) && (r.GroupByStr != nil && len(r.GroupByStr) == 0 ==> r.GroupBy != nil) && (r.GroupInterval != nil ==> deref(r.GroupInterval) != 0) && (r.RepeatInterval != nil ==> deref(r.RepeatInterval) != 0)
 //@   noeffect IsValidLabelName MatchString
 
 // ---- C17: the well-formedness a loaded configuration has. Config.UnmarshalYAML has a single successful exit, the
